@@ -178,16 +178,19 @@ def template_args(fn):
     return out
 
 
-def find_functions(objs, name, cls=None, targs=None, sig=None, want_pattern=False, plain_only=False):
+def find_functions(objs, name, cls=None, targs=None, sig=None, want_pattern=False, plain_only=False, cls_targs=None):
     """All function definitions called `name` (optionally inside record `cls`,
     with the given template arguments (substring match per argument) and a
     substring `sig` of the function type)."""
     res = []
 
-    def rec(n, rec_stack, in_template):
+    def rec(n, rec_stack, in_template, spec=None):
         k = n.get("kind")
         if k in ("CXXRecordDecl", "ClassTemplateSpecializationDecl"):
             rec_stack = rec_stack + [n.get("name")]
+        if k == "ClassTemplateSpecializationDecl":
+            spec = [c.get("value", (c.get("type") or {}).get("qualType")) for c in n.get("inner", ()) or ()
+                    if isinstance(c, dict) and c.get("kind") == "TemplateArgument"]
         if k in FUNC_KINDS and n.get("name") == name and has_body(n):
             ok = True
             if cls is not None and (not rec_stack or rec_stack[-1] != cls):
@@ -203,12 +206,14 @@ def find_functions(objs, name, cls=None, targs=None, sig=None, want_pattern=Fals
                 ok = False
             if plain_only and in_template:
                 ok = False      # a member template (or its instantiations) of the same name
+            if cls_targs is not None and spec != list(cls_targs):
+                ok = False      # a member of another specialization of the class template (or of the pattern)
             if ok:
                 res.append(n)
         tmpl = in_template or k in ("FunctionTemplateDecl",)
         for c in n.get("inner", ()) or ():
             if isinstance(c, dict):
-                rec(c, rec_stack, k == "FunctionTemplateDecl")
+                rec(c, rec_stack, k == "FunctionTemplateDecl", spec)
 
     for o in objs:
         rec(o, [], False)
